@@ -10,6 +10,7 @@
 (*               equation has one solution there and "widths are           *)
 (*               non-decreasing in pressure" is a consequence of solving)  *)
 (*   Physical    ln p < 0 and the width lies in (d_a, 3 nm]                 *)
+(*   PermOk, RYAttractive  see below                                       *)
 (***************************************************************************)
 EXTENDS HK
 
@@ -29,4 +30,11 @@ Increasing == j < np => DLt(SlitLnP(Lj(j), A, H, Temps[t]), SlitLnP(Lj(j + 1), A
 Physical == /\ DLt(SlitLnP(Lj(j), A, H, Temps[t]), DZero)
             /\ DLt(A.d, WidthOf("slit", Lj(j), H)) /\ DLeq(WidthOf("slit", Lj(j), H), WMax)
             /\ DClose(LOf("slit", WidthOf("slit", Lj(j), H), H), Lj(j), DTol(6))
+\* the presentation orders are permutations of the grid
+PermOk == \A pm \in {"id", "swap", "rev"} : {PermIdx(pm, np, i) : i \in 1..np} = 1..np
+\* the published Rege-Yang slit / sphere equations are attractive (ln p < 0) on the grid; at least one layer fits
+RYAttractive == LET M == RYSlitLayers(Lj(j), A, H) IN
+                /\ DLt(RYSlitLnP(Lj(j), A, H, Temps[t], DLt(M, DInt(2))), DZero)
+                /\ DLt(RYSphereLnP(Lj(j), A, H, Temps[t]), DZero)
+                /\ RYSphereLayers(Lj(j), A, H) >= 1
 =============================================================================
